@@ -99,14 +99,23 @@ inline void jitter(Rng &r, bool concurrent) {
 }
 
 // ------------------------------------------------------------------------------------------------ static classes
-template<class K, class Idx>
+template<class K, class Idx, bool Big = false>
 void conc_static_case(Ctx &c) {
     std::string fam;
-    std::vector<K> keys = gen_keys<K>(c.rng, Idx::epsilon_value, c.thorough() ? 60000 : 8000, fam);
+    std::vector<K> keys;
+    if constexpr (Big) {
+        // tens of thousands of segments: the succinct structures of the compressed / Elias-Fano variants are past their
+        // small-size layouts (select directories with explicitly stored "long" blocks, multi-word rank tables)
+        keys = gen_irregular_keys<K>(c.rng, 220000 + c.rng.below(c.thorough() ? 500000 : 150000));
+        fam = "irregular_big";
+    } else
+        keys = gen_keys<K>(c.rng, Idx::epsilon_value, c.thorough() ? 60000 : 8000, fam);
     if constexpr (std::is_floating_point_v<K>) {
         if (!float_domain_ok<K, float>(keys)) return;
     }
     std::vector<K> qs = gen_queries(keys, c.rng, 3000);
+    if constexpr (Big)
+        for (size_t i = keys.size() > 3000 ? keys.size() - 3000 : 0; i < keys.size(); i += 2) qs.push_back(keys[i]); // the top end
     Hasher h; h.add_vec(keys); c.input_hash = h.h;
     c.traits = fam;
     std::unique_ptr<Idx> idx(new Idx(keys.begin(), keys.end()));
@@ -125,6 +134,7 @@ void conc_static_case(Ctx &c) {
         st.ops += nops;
         return d.h;
     };
+    c.maxc("max_segments_of_shared_index", idx->segments_count());
     run_readers(c, seq, c.thorough() ? 20000 : 2000, c.cfg.name.c_str());
 }
 
@@ -305,6 +315,7 @@ void conc_dyn_case(Ctx &c) {
 }
 
 #define VF_CONC_STATIC(NAME, K, ...) VF_REGISTER(std::string("conc/") + NAME, (&::vf::conc_static_case<K, __VA_ARGS__>), 1.0)
+#define VF_CONC_STATIC_BIG(NAME, K, ...) VF_REGISTER(std::string("conc/") + NAME + "#big", (&::vf::conc_static_case<K, __VA_ARGS__, true>), 0.2)
 #define VF_CONC_MAPPED(K, E, ER) VF_REGISTER(std::string("conc/mapped,") + ::vf::KT<K>::name(), (&::vf::conc_mapped_case<K, E, ER>), 1.0)
 #define VF_CONC_MD(D, T, E) VF_REGISTER(std::string("conc/md,d" #D ",") + ::vf::KT<T>::name(), (&::vf::conc_md_case<D, T, E>), 1.0)
 #define VF_CONC_DYN(NAME, K, V, ...) VF_REGISTER(std::string("conc/dyn,") + NAME, (&::vf::conc_dyn_case<K, V, __VA_ARGS__>), 1.0)
